@@ -181,10 +181,10 @@ func c14r2(r *R) {
 				}
 				d := describe(c.Common().Value)
 				if strings.Contains(d, "LookupIP") || strings.Contains(d, "lookupIP") || strings.Contains(d, "testingLookupIP") {
-					if nw, ok := constString(c.Common().Args[1]); ok {
+					if nw, ok := constString(refArgs(c.Common())[1]); ok {
 						got = append(got, nw)
 					} else {
-						got = append(got, describe(c.Common().Args[1]))
+						got = append(got, describe(refArgs(c.Common())[1]))
 					}
 				}
 			})
